@@ -40,10 +40,16 @@ struct Frame
   double X(I64 k) const { return h * (double)(k + ox); }
   double Y(I64 k) const { return h * (double)(k + oy); }
 };
-static Frame genFrame(Rng& r)
+static Frame genFrame(Rng& r, bool allowTiny = false)
 {
   Frame f;
   f.h = std::ldexp(1.0, r.irange(-4, 2));
+  // small-scale stratum: a half-unit of about 1e-6 (a polygon of a few metres in degrees)
+  if (allowTiny && r.coin(0.06))
+  {
+    f.h = std::ldexp(1.0, r.irange(-20, -18));
+    return f;
+  }
   if (r.coin(0.4))
   {
     f.ox = (r.coin() ? 1 : -1) * (I64)r.irange(1000, 1 << 20);
@@ -344,7 +350,7 @@ static void caseSingle(Rng& r, Ctx& c)
 {
   int maxV   = c.thorough() ? 400 : 250;
   PolyGen g  = genPolygon(r, c, maxV);
-  Frame f    = genFrame(r);
+  Frame f    = genFrame(r, true);
   bool closed = r.coin(0.5);
   I64 ar     = refp::area2(g.ring);
   c.setSig(fmt("single:%s:%s:%s:n%d:h%g:off%d", g.kind.c_str(), closed ? "closed" : "open", ar > 0 ? "ccw" : "cw",
@@ -366,13 +372,18 @@ static void caseSingle(Rng& r, Ctx& c)
   if (pol.getPolyElemNumber() != 1) return;
   PolyElem peClosed = pe;
   peClosed.closePolyElem();
-  c.truth("build", "C20:PolyElem:closePolyElem", peClosed.getNPoints() == (int)g.ring.size() + 1,
+  c.truth("build", (!closed && f.h < 1e-4) ? "C20:closePolyElem:tiny-open-ring" : "C20:PolyElem:closePolyElem",
+          peClosed.getNPoints() == (int)g.ring.size() + 1,
           fmt("closed ring has %d points for %zu vertices", peClosed.getNPoints(), g.ring.size()));
 
   I64 x0, x1, y0, y1;
   bbox(g.ring, x0, x1, y0, y1);
   int nq = c.thorough() ? 1000 : 300;
   std::string cl = closed ? "closed" : "open";
+  // small-scale stratum with an open ring: whether the ring gets closed is decided by an absolute tolerance; everything
+  // observed there is reported under one key
+  bool tinyOpen = !closed && f.h < 1e-4;
+  auto K = [&](const std::string& k) { return tinyOpen ? std::string("C20:closePolyElem:tiny-open-ring") : k; };
   for (int iq = 0; iq < nq; iq++)
   {
     Pt q = genQuery(r, g.ring, x0, x1, y0, y1);
@@ -388,11 +399,11 @@ static void caseSingle(Rng& r, Ctx& c)
                         g.kind.c_str(), g.ring.size());
     // Polygons::inside closes the ring itself (getClosedPolyElem); both rules coincide for one polygon
     bool g1 = pol.inside(coor, false), g2 = pol.inside(coor, true);
-    c.truth("polygons-inside", std::string("C20:Polygons.inside:") + cl + ":" + ALN[al], g1 == want, w);
-    c.truth("polygons-inside", std::string("C20:Polygons.inside:nested-flag:") + cl + ":" + ALN[al], g2 == want, w);
+    c.truth("polygons-inside", K(std::string("C20:Polygons.inside:") + cl + ":" + ALN[al]), g1 == want, w);
+    c.truth("polygons-inside", K(std::string("C20:Polygons.inside:nested-flag:") + cl + ":" + ALN[al]), g2 == want, w);
     // PolyElem::inside on the closed ring
     bool g3 = peClosed.inside(coor);
-    c.truth("polyelem-inside", std::string("C20:PolyElem.inside:closed:") + ALN[al], g3 == want, w);
+    c.truth("polyelem-inside", K(std::string("C20:PolyElem.inside:closed:") + ALN[al]), g3 == want, w);
     if (!closed)
     {
       // PolyElem::inside on a ring left open (the statement covers "closed or left open")
@@ -586,8 +597,20 @@ static void caseDb(Rng& r, Ctx& c)
   bool nested  = r.coin(0.5);
   bool flagSel = r.coin(0.4);
   bool closed  = r.coin(0.5);
-  c.setSig(fmt("db:%s:np%zu:%s:z%d:%s:sel%d:step%d:%s:polin%d", s.kind.c_str(), s.rings.size(), is3d ? "3d" : "2d", (int)withZ,
-               nested ? "nested" : "union", (int)flagSel, step, closed ? "closed" : "open", (int)polin));
+  // flag_period: "true if first coordinate is longitude (in degree) and must be cycled for the check": a sample counts
+  // if x, x-360 or x+360 passes. 360 degrees = P half-units (h is a power of two >= 1/8, so P is an integer); in half of
+  // these cases the grid is moved one period away from the polygons.
+  bool period = !polin && r.coin(0.12);
+  I64 P       = (I64)std::llround(360.0 / f.h);
+  int pshift  = 0;
+  if (period)
+  {
+    pshift = r.irange(-1, 1);
+    gx0 += pshift * P;
+  }
+  c.setSig(fmt("db:%s:np%zu:%s:z%d:%s:sel%d:step%d:%s:polin%d:period%d", s.kind.c_str(), s.rings.size(), is3d ? "3d" : "2d",
+               (int)withZ, nested ? "nested" : "union", (int)flagSel, step, closed ? "closed" : "open", (int)polin,
+               period ? 2 + pshift : 0));
   c.puts("kind", "db");
   c.puts("set", s.kind);
   c.putn("nx", nx);
@@ -626,16 +649,22 @@ static void caseDb(Rng& r, Ctx& c)
     Pt q{gx0 + (I64)ix * step, gy0 + (I64)iy * step};
     I64 qz = gz0 + (I64)iz * zstep;
     qs[i] = q; qzs[i] = qz;
-    int count = 0;
     bool undet = false;
-    for (size_t k = 0; k < s.rings.size(); k++)
+    int res    = 0;
+    for (int sh = (period ? -1 : 0); sh <= (period ? 1 : 0) && !undet; sh++)
     {
-      int m = memberOf(s, k, q, is3d, qz);
-      if (m < 0) { undet = true; break; }
-      count += m;
+      Pt qq{q.x + sh * P, q.y};
+      int count = 0;
+      for (size_t k = 0; k < s.rings.size(); k++)
+      {
+        int m = memberOf(s, k, qq, is3d, qz);
+        if (m < 0) { undet = true; break; }
+        count += m;
+      }
+      if (!undet && (nested ? (count % 2) : (count > 0))) res = 1;
     }
     if (undet) continue;
-    want[i] = nested ? (count % 2) : (count > 0);
+    want[i] = res;
   }
   // the point test on every node, before the Db is modified
   std::vector<int> test(n);
@@ -644,11 +673,25 @@ static void caseDb(Rng& r, Ctx& c)
     VectorDouble coor(is3d ? 3 : 2);
     for (int k = 0; k < (int)coor.size(); k++) coor[k] = db->getCoordinate(i, k);
     test[i] = pol.inside(coor, nested) ? 1 : 0;
+    if (period)
+      for (int sh = -1; sh <= 1; sh += 2)
+      {
+        VectorDouble c2 = coor;
+        c2[0] += sh * 360.;
+        if (pol.inside(c2, nested)) test[i] = 1;
+      }
   }
-  std::string kd = std::string("C20:db_polygon:") + (is3d ? "3d" : "2d") + ":" + (nested ? "nested" : "union") +
-                   (withZ ? ":zlimits" : "") + (flagSel ? ":flag_sel" : "");
+  // key: one per (dimension, rule); sets of several polygons with vertical limits have their own key
+  std::string kd = std::string("C20:db_polygon:") + (is3d ? "3d" : "2d") + ":" + (nested ? "nested" : "union");
+  if (withZ && s.rings.size() > 1) kd = "C20:db_polygon:3d:zlimits:multi";
+  else
+  {
+    if (withZ) kd += ":zlimits";
+    if (period) kd += ":period";
+  }
   int ncolBefore = db->getColumnNumber();
-  db_polygon(db.get(), &pol, flagSel, false, nested);
+  db_polygon(db.get(), &pol, flagSel, period, nested);
+  if (period) c.probe(pshift ? "period-shifted" : "period-unshifted");
   c.truth("db-shape", kd + ":one-new-column", db->getColumnNumber() == ncolBefore + 1, "db_polygon adds exactly one column");
   VectorDouble selv = db->getColumnByLocator(ELoc::SEL, 0);
   if (!c.truth("db-shape", kd + ":selection-locator", (int)selv.size() == n, "the new column carries the selection locator"))
@@ -667,7 +710,7 @@ static void caseDb(Rng& r, Ctx& c)
     c.truth("db-vs-test", kd + ":differs-from-point-test", (selv[i] != 0.) == (test[i] != 0), w);
     // ... and the geometric truth
     if (want[i] < 0) { c.skip("on-boundary"); continue; }
-    c.truth("db-exact", kd + ":" + ALN[std::min(3, refp::alignment(s.rings[0], qs[i]))], (selv[i] != 0.) == (want[i] != 0), w);
+    c.truth("db-exact", kd, (selv[i] != 0.) == (want[i] != 0), w + " " + ALN[std::min(3, refp::alignment(s.rings[0], qs[i]))]);
     if (selv[i] != 0. && selv[i] != 1.) c.truth("db-shape", kd + ":value-not-0-1", false, w);
   }
 
